@@ -127,6 +127,10 @@ def check_single_seed_segmentation(row, par, where):
     if not allpos:
         return False
     scores = [p.score for p in allpos]
+    if any(float(x * 2) != round(x * 2) for x in scores):
+        # inexact float scores (e.g. -dp 0.35): the factory compares a naive running sum with Python 3.12's compensated
+        # sum(), so threshold equalities are decided by rounding; the reference scan is only authoritative on exact scores
+        return False
     exp, _, _ = reference_scan(scores, par["-ms"], par["-bs"])
     ident = {id(p): i for i, p in enumerate(allpos)}
     got = []
